@@ -96,7 +96,7 @@ CHECKS.update({
             "text": "snapshot() completes in one pass of its loop, returns the published pair, never panics and never touches the lock, from EVERY state of "
                     "the form a suspended writer can leave behind, with the lock held forever; try_update returns false without waiting when the lock is held and "
                     "behaves as update otherwise. Loop-free after unwinding + unwinding assertions => complete for the stated state space.",
-            "note": "sequential consistency at atomic-operation granularity; writer discipline (only the non-stable slot is written inside the critical section) assumed = C13; 4 concrete vouched pairs"},
+            "note": "sequential consistency at atomic-operation granularity; the writer's store order is NOT assumed: c18_snapshot_with_real_writer_cut_off_at_every_store runs the real advance_once and suspends it before each of its atomic stores; 4 concrete vouched pairs"},
 })
 
 NOT_APPLICABLE = {
